@@ -447,11 +447,23 @@ def main():
     os.makedirs(OUT, exist_ok=True)
     info = {}
     changed = []
+    failed = {}
     for name, gen in (('Orders.lean', gen_orders), ('Consts.lean', gen_consts), ('Session.lean', gen_session), ('Macros.lean', gen_macros), ('Locks.lean', gen_locks)):
-        text, meta = gen()
+        try:
+            text, meta = gen()
+        except ExtractError as e:
+            # the extractor no longer recognises what this file is generated from: the file becomes an error carrying the message,
+            # so that exactly the obligations that rest on it (and the checks that list them) stop building
+            msg = str(e).replace('"', "'").replace('\\', '/').replace('\n', ' ')[:500]
+            text = ('/- GENERATED by tools/extract.py — the extraction FAILED; this file deliberately does not compile -/\n'
+                    'theorem BinlogVerif.Generated.extraction_failed_%s : False := by\n'
+                    '  exact absurd rfl (by decide : ¬ ("tools/extract.py: %s" = ""))\n' % (name.split('.')[0], msg))
+            meta = {'error': str(e)}
+            failed[name] = str(e)
         info[name] = meta
         if write_if_changed(os.path.join(OUT, name), text):
             changed.append(name)
+    info['failed'] = failed
     # the source-to-Lean translation of the integer kernels (tools/c2lean.py): one file per area
     sys.path.insert(0, os.path.dirname(os.path.abspath(__file__)))
     import c2lean_specs
